@@ -16,7 +16,7 @@ theorem wordsBE_cons (w : UInt16) (ws : List UInt16) :
 @[simp] theorem wordsBE_length (ws : List UInt16) : (Spec.wordsBE ws).length = ws.length * 2 := by
   induction ws with
   | nil => rfl
-  | cons w ws ih => rw [wordsBE_cons]; simp [ih]
+  | cons w ws ih => rw [wordsBE_cons]; simp only [List.length_cons, ih]; omega
 
 theorem wordsBE_append (a b : List UInt16) : Spec.wordsBE (a ++ b) = Spec.wordsBE a ++ Spec.wordsBE b := by
   simp [Spec.wordsBE]
